@@ -137,6 +137,8 @@ func setupProfile(e *Env, o core.RunOpts) error {
 		return setupTransition(e, o)
 	case "C06", "C07", "C15", "C16":
 		return setupFeeds(e, o)
+	case "C08", "C17":
+		return setupTunnel(e, o)
 	case "C04", "C18":
 		return setupTransition(e, o)
 	case "C09":
@@ -391,6 +393,85 @@ func setupFeeds(e *Env, o core.RunOpts) error {
 	e.MaxSteps = e.Ch.Range("cfg.steps", 40, 110)
 	if o.Thorough {
 		e.MaxSteps = e.Ch.Range("cfg.steps", 60, 220)
+	}
+	e.DrainMax = 0
+	return nil
+}
+
+// setupTunnel: feeds (votes, price submissions) + a genesis signing group + tunnels over TSS and IBC routes.
+func setupTunnel(e *Env, o core.RunOpts) error {
+	tokens := drawValTokens(e, 1, 5)
+	op := drawOracleParams(e)
+	fp := drawFeedsParams(e)
+	fp.PriceQuorum = []string{"0.3", "0", "0.05"}[e.Ch.Intn("cfg.tunnel.quorum", 3)]
+	fp.CurrentFeedsUpdateInterval = int64(e.Ch.Range("cfg.tunnel.updint", 1, 8))
+	tp := drawTSSParams(e)
+	bp := drawBandtssParams(e)
+	tup := drawTunnelParams(e)
+	e.Shared["oracle.genesis.params"] = op
+	e.Shared["tss.genesis.params"] = tp
+	e.Shared["bandtss.genesis.params"] = bp
+	e.Shared["bandtss.genesis.current"] = uint64(1)
+	cfg := world.Config{Seed: o.Seed, ChainID: "simband", ValTokens: tokens, NumUsers: 12, Replicas: 1, GenesisTime: baseTime}
+	faults := drawFaults(e, false)
+	faults.AbsentVote, faults.NilVote = 0, 0
+	faults.TimeJump /= 2
+	var accs []*world.Account
+	for i := 0; i < cfg.NumUsers; i++ {
+		accs = append(accs, world.NewAccount(o.Seed, fmt.Sprintf("user%d", i)))
+	}
+	size := 1 + e.Ch.Intn("cfg.tss.groupsize", 4)
+	thr := uint64(1 + e.Ch.Intn("cfg.tss.threshold", size))
+	noGroup := e.Ch.Bool("cfg.tunnel.nogroup", 80)
+	pool := NewTSSPool(e, accs[:size])
+	drawMemberBehaviour(e, pool, int(tp.MaxDESize), true)
+	e.Shared["tss.shadow"] = NewTSSShadow(pool)
+	e.Shared["tss.pool"] = pool
+	gcfg := tssGenesisCfg{TSSParams: tp, BandtssParams: bp, GroupMembers: pool.Members, Threshold: thr, InitialDEs: e.Ch.Intn("cfg.tss.initde", int(tp.MaxDESize)+1)}
+	if noGroup {
+		gcfg.GroupMembers = nil
+		e.Shared["bandtss.genesis.current"] = uint64(0)
+	}
+	var dss []dsSpec
+	treas := world.NewAccount(o.Seed, "treasury")
+	for i := 0; i < 2; i++ {
+		dss = append(dss, dsSpec{Fee: sdk.NewCoins(), Treasury: treas, Exec: []byte("x")})
+	}
+	e.Desc("tunnel params: min_deposit=%s interval=[%d,%d] deviation=[%d,%d] max_signals=%d base_fee=%s; signing fee=%s group %d/%d (none=%v); feeds update_every=%d quorum=%s",
+		tup.MinDeposit, tup.MinInterval, tup.MaxInterval, tup.MinDeviationBPS, tup.MaxDeviationBPS, tup.MaxSignals, tup.BasePacketFee, bp.FeePerSigner, thr, size, noGroup, fp.CurrentFeedsUpdateInterval, fp.PriceQuorum)
+	cfg.GenesisMods = append(cfg.GenesisMods, govGenesis(4*time.Second), quietEconomy(), oracleGenesis(e, op, dss), feedsGenesis(fp, []string{"uusd"}), tssGenesis(e, gcfg), tunnelGenesis(tup))
+	w, err := world.New(e.Ch, e.Log, e.St, cfg, o.Scratch)
+	if err != nil {
+		return err
+	}
+	e.W = w
+	w.F = faults
+	for i, m := range pool.Members {
+		m.Acc = w.Users[i]
+	}
+	voters := w.Users[size : size+2]
+	tunnelUsers := w.Users[size+2:]
+	ss := NewStakeShadow(w, []string{"uusd"}, fp.MaxCurrentFeeds)
+	ss.Voters = voters
+	e.Shared["stake.shadow"] = ss
+	e.Shared["feeds.shadow"] = NewFeedsShadow()
+	e.Shared["tunnel.shadow"] = NewTunnelShadow(e, tup, tunnelUsers)
+	signals := []string{"CS:BTC-USD", "CS:ETH-USD", "CS:BAND-USD", "X", "CS:A-VERY-LONG-SIGNAL-ID-0123456789", "CS:SOL-USD"}
+	lazy := map[string]int{}
+	for _, v := range w.Vals {
+		lazy[v.Val.String()] = []int{0, 0, 100}[e.Ch.Intn("cfg.feeder.lazy", 3)]
+	}
+	e.Actors = append(e.Actors,
+		&OracleActor{MaxOpen: 1, ReqRate: 0, Scripts: []int{scriptEcho}, NumDS: len(dss), ActivateP: 1000, ReactivateP: 300},
+		&StakeActor{Voters: voters, Rate: 0, Denoms: []string{"uusd"}, VaultKeys: []string{"vaultA"}},
+		&VoteActor{Voters: voters, Signals: signals[:4+e.Ch.Intn("cfg.tunnel.nsignals", 3)], Rate: 150 + e.Ch.Intn("cfg.vote.rate", 300)},
+		&FeederActor{Lazy: lazy, ByzP: 20, SkewP: 0},
+		&TSSActor{Pool: pool, ByzP: 0, ReactP: 300, OverDEP: 0},
+		&TunnelActor{Users: tunnelUsers, Signals: signals, Params: tup, Rate: 350 + e.Ch.Intn("cfg.tunnel.rate", 500), MaxTunnels: 1 + e.Ch.Intn("cfg.tunnel.max", 4)})
+	e.Monitors = append(e.Monitors, &C08{}, &C17{}, &C06{}, &C07{}, &C05{}, &C10{}, &C09{WithTSS: true})
+	e.MaxSteps = e.Ch.Range("cfg.steps", 50, 120)
+	if o.Thorough {
+		e.MaxSteps = e.Ch.Range("cfg.steps", 70, 240)
 	}
 	e.DrainMax = 0
 	return nil
